@@ -136,4 +136,47 @@ def rangeEnd (k : Bytes) (n : Nat) : Bytes :=
   let (p, m) := rangeEndScan k n []
   p ++ (List.range m).flatMap (fun _ => sep) ++ maxKey
 
+/-- cut at the leftmost separator, byte-wise (`strings.Index(s, Sep)`): (before, after) -/
+def cutSep : Bytes → Option (Bytes × Bytes)
+  | [] => none
+  | 0 :: 0 :: rest => some ([], rest)
+  | b :: rest =>
+    match cutSep rest with
+    | none => none
+    | some (p, s) => some (b :: p, s)
+
+/-- skip `i` separators (`pos += sepPos + sepLen`), `none` if there are fewer -/
+def skipSeps : Bytes → Nat → Option Bytes
+  | s, 0 => some s
+  | s, i + 1 =>
+    match cutSep s with
+    | none => none
+    | some (_, r) => skipSeps r i
+
+/-- `Decode1` (for `i ≥ 0`) -/
+def decode1 (comp : Bytes) (i : Nat) : Bytes :=
+  if comp = [] then []
+  else
+    match skipSeps comp i with
+    | none => []
+    | some r =>
+      match cutSep r with
+      | none => unenc r
+      | some (f, _) => unenc f
+
+/-- prefix of `s` before its `(k+1)`-th separator, `none` if there are fewer -/
+def cutBefore : Bytes → Nat → Option Bytes
+  | s, 0 => (cutSep s).map (·.1)
+  | s, k + 1 =>
+    match cutSep s with
+    | none => none
+    | some (p, r) => (cutBefore r k).map (fun q => p ++ 0 :: 0 :: q)
+
+/-- `TruncFunc(spec1, spec2)`: `nf` = `len(Fields)`, `enc` = `Spec.Encodes()` -/
+def truncFn (nf1 nf2 : Nat) (enc1 enc2 : Bool) (comp : Bytes) : Bytes :=
+  if !enc1 && !enc2 then comp
+  else if !enc2 then decode1 comp 0
+  else if nf1 = nf2 then comp
+  else (cutBefore comp (nf2 - 1)).getD comp
+
 end Gsu.Ixkey
